@@ -359,6 +359,19 @@ def simplify(e):
         if b[0] == 'bin' and b[1].endswith("WithOverflow") and str(e[2]) == '0':
             return ('bin', b[1][:-len("WithOverflow")], b[2], b[3])
         inner = b
+        # projection distributes over a join of alternatives: (phi(a, b) as V).f == phi((a as V).f, (b as V).f), where
+        # alternatives that are visibly another variant drop out
+        if inner[0] == 'variant' and peel(inner[1])[0] == 'phi':
+            alts = []
+            for a in peel(inner[1])[1]:
+                pa = peel(a)
+                if pa[0] == 'agg' and pa[1] == 'adt' and not pa[2].endswith("::" + str(inner[2])):
+                    continue
+                alts.append(simplify(('field', ('variant', a, inner[2]), e[2])))
+            if len(alts) == 1:
+                return alts[0]
+            if alts:
+                return ('phi', tuple(alts))
         # `?` on a Result: (Try::branch(R) as Continue).0 == (R as Ok).0
         if inner[0] == 'variant' and inner[2] == 'Continue' and str(e[2]) == '0':
             br = peel(inner[1])
